@@ -1962,6 +1962,18 @@ def c19(run, an=None):
                 prev = st
                 continue
             rets = [e for e in st.events if e.startswith("ret " + st.op)]
+            # a string or binary value of more than 65535 bytes has no MQTT encoding: an illegal value
+            # (topic, filters and property values; the payload of a PUBLISH has no such limit)
+            fields = [st.tok[3], st.tok[5]] if st.op == "publish" else st.tok[1:]
+            if any(len(h) > 131070 for f in fields for h in re.split(r"[,=/]", f)):
+                # the result may come in a later POLL of the same operation
+                late = list(rets)
+                for s2 in run.steps[st.idx + 1:]:
+                    if late or s2.op not in ("d", "go", "tick"):
+                        break
+                    late = [e for e in s2.events if e.startswith("ret " + st.op)]
+                if late and late[0].startswith("ret " + st.op + " ok"):
+                    out.append(V("C19", "illegal-value-accepted", f"{st.op} with a topic, filter or property value longer than 65535 bytes -> {late[0]}", step=st.idx))
             legal = True if items is None else legal_props(items, CTX_OF[st.op])
             empty = st.op in ("subscribe", "unsubscribe") and len(st.tok) == 2
             if rets:
